@@ -437,6 +437,11 @@ func generate(p *Prog, prop string, cover bool) *RunResult {
 				for _, o := range e.obls {
 					o.Name = e.name + o.Name[strings.Index(o.Name, "#"):]
 					o.Func = e.name
+					if i := strings.Index(o.CoverGroup, "#premise:"); i >= 0 {
+						// a clause of an interface method that speaks about one implementation
+						// (imp(istype(self, *T), ...)) needs a witness in some implementation, not in each
+						o.CoverGroup = ik + "." + mn + o.CoverGroup[i:]
+					}
 				}
 				rr.Execs = append(rr.Execs, e)
 				rr.Functions = append(rr.Functions, e.name)
